@@ -31,6 +31,12 @@ def taxFor (rows : List Row) (d : Int) (sym : String) : Rat :=
     | .nra d' (some s) (some a) => if d' = d ∧ s = sym then some (rabs a) else none
     | _ => none))
 
+/-- is there a dividend row with an amount on that date and symbol (to carry the day's withholding)? -/
+def hasDividend (rows : List Row) (d : Int) (sym : String) : Bool :=
+  rows.any (fun r => match r with
+    | .dividend d' s (some _) => d' = d ∧ s = sym
+    | _ => false)
+
 structure St where
   items : List Item := []
   skipped : Nat := 0
@@ -47,8 +53,14 @@ def step (all : List Row) (s : St) : Row → St
     let first := !(s.taxUsed.contains (d, sym))
     { s with items := s.items ++ [.dividend d sym (rabs a) (if first then taxFor all d sym else 0)],
              taxUsed := s.taxUsed ++ [(d, sym)] }
-  | .dividend _ _ none => s
-  | .nra .. => s
+  -- a dividend row without an amount, and a withholding row that names a symbol but finds no dividend to
+  -- carry it (or has no amount), yield no line: a comment, a warning and the skipped count say so
+  | .dividend _ _ none => { s with items := s.items ++ [.comment], skipped := s.skipped + 1, warnings := s.warnings + 1 }
+  | .nra d (some sym) a =>
+    if a.isSome ∧ hasDividend all d sym then s
+    else { s with items := s.items ++ [.comment], skipped := s.skipped + 1, warnings := s.warnings + 1 }
+  -- a withholding row without a symbol is ignored (an existing test of the repository pins that)
+  | .nra _ none _ => s
   | .split .. => { s with items := s.items ++ [.comment], skipped := s.skipped + 1 }
   | .nonCgt => { s with skipped := s.skipped + 1 }
   | .unknown => { s with items := s.items ++ [.comment], skipped := s.skipped + 1, warnings := s.warnings + 1 }
